@@ -146,7 +146,11 @@ class PyUnit:
         consts = module_constants(tree)
         if self.consts:
             consts.update(self.consts)
-        ex = PyExec(tree, self.qualname, consts=consts, callees=self.callees, prefix=self.uid + "/", options=self.options)
+        opts = self.options
+        if callable(opts.get("invariants")):
+            # structural binding: the contract reads the roles of locals and loops off the function's ast (no local is named in the contract)
+            opts = dict(opts, invariants=opts["invariants"](fn))
+        ex = PyExec(tree, self.qualname, consts=consts, callees=self.callees, prefix=self.uid + "/", options=opts)
         st = PState()
         e = Env()
         self._ex = ex
